@@ -356,13 +356,16 @@ def stdMonitor (r : Report) (s : Section) (l : Line) (fs : Fields) (j : J) (key 
   else if ¬ (oU.startsWith "ok:" ∧ oS.startsWith "ok:") then r.addCover "std-not-both-accept"
   else if oU = oS then r.addCover "std-agree"
   else
+    -- the class of a difference is `stdClass` (Spec.lean), the very predicate of `agrees_with_encoding_json_total`:
+    -- outside its classes only nil-vs-empty maps may differ; anything else is class=value (a violation of the theorem's
+    -- conclusion on the real code; float32-double-rounding names the defect repaired by 71c4c8c should it come back)
     let cls :=
-      if ¬ noNull j then "null"
-      else if ¬ noCaseCollision j ∨ ¬ keysExact (.struct fs) j then "case-fold"
-      else if tyHasDotKey (.struct fs) then "dotted-key"
-      else if normNil oU = normNil oS then "nil-vs-empty-map"
-      else if ¬ f32StableDoc j then "float32-double-rounding"
-      else "value"
+      match stdClass fs j with
+      | some c => c.name
+      | none =>
+        if normNil oU = normNil oS then "nil-vs-empty-map"
+        else if ¬ f32StableDoc j then "float32-double-rounding"
+        else "value"
     (r.addCover ("std-differ-" ++ cls)).violation s.idx l.idx
       s!"std-disagree class={cls} at={at_} go-zero=[{oU}] encoding/json=[{oS}] doc=[{printTree j}]"
 
@@ -510,7 +513,8 @@ def bitsOfTok (t : String) : Option Nat :=
   short (half of the content, then io.EOF): half a JSON object is never a document - an error verdict;
   tail (the whole content, then an error instead of io.EOF): YAML / TOML read everything first (`io.ReadAll`) and fail,
         the JSON decoder stops at the closing brace and never sees it;
-  panic / panicstr (the reader panics with an error value / with a string): the panic reaches the caller. -/
+  panic / panicstr (the reader panics with an error value / with a string): the panic reaches the caller;
+  goexit (the reader calls runtime.Goexit, as t.FailNow would): the calling goroutine ends, nothing is returned. -/
 def runMrd (r : Report) (s : Section) (l : Line) (fs : Fields) (mode : String) (bits : Nat) (j : J) : Report := Id.run do
   let mut r := r
   let o : Opts := { optsOfBits bits with env := envOfTy (.struct fs) }
@@ -524,6 +528,7 @@ def runMrd (r : Report) (s : Section) (l : Line) (fs : Fields) (mode : String) (
     else if mode = "cut" ∨ mode = "errfirst" then "err"
     else if mode = "tail" then (if isJson then b else "err")
     else if mode = "short" then "err"
+    else if mode = "goexit" then "goexit"
     else "panic"
   r := checkTokM im r s l "JB" mJ
   r := checkTokM im r s l "YB" mY
@@ -552,6 +557,10 @@ def runMrd (r : Report) (s : Section) (l : Line) (fs : Fields) (mode : String) (
   else if mode = "short" then
     if (g "JR").startsWith "ok:" then
       r := r.violation s.idx l.idx s!"truncated-stream-accepted class=reader mode={mode} opts={bits} JR=[{g "JR"}]: half of a JSON document followed by io.EOF was decoded into a value"
+  else if mode = "goexit" then
+    -- runtime.Goexit inside the reader ends the calling goroutine: no entry point may turn it into a verdict or a value
+    if pairs.any (fun p => g p.2 ≠ "goexit" ∧ g p.2 ≠ "skip") then
+      r := r.violation s.idx l.idx s!"reader-goexit-swallowed class=reader mode={mode} opts={bits} JR=[{g "JR"}] YR=[{g "YR"}] TR=[{g "TR"}]: the caller's reader called runtime.Goexit and the entry point still returned"
   else if mode = "panic" ∨ mode = "panicstr" then
     if pairs.any (fun p => (g p.2).startsWith "ok:") then
       r := r.violation s.idx l.idx s!"reader-panic-swallowed class=reader mode={mode} opts={bits} JR=[{g "JR"}] YR=[{g "YR"}] TR=[{g "TR"}]"
